@@ -2,6 +2,8 @@ package main
 
 import (
 	"fmt"
+	"os"
+	"runtime/debug"
 	"sort"
 	"strconv"
 	"strings"
@@ -25,7 +27,7 @@ func showItem(i btree.Item) string {
 	if i == nil {
 		return "nil"
 	}
-	x, ok := i.(kv)
+	x, ok := plain(i)
 	if !ok {
 		return "?item"
 	}
@@ -47,13 +49,13 @@ func showKVs(l []kv) string {
 	return b.String()
 }
 
-// pInt: optional '-', 1..9 digits (the oracle uses the same rule).
+// pInt: optional '-', 1..19 digits, within int64 (the oracle uses the same rule).
 func pInt(s string) (int, bool) {
 	d := s
 	if strings.HasPrefix(d, "-") {
 		d = d[1:]
 	}
-	if len(d) == 0 || len(d) > 9 {
+	if len(d) == 0 || len(d) > 19 {
 		return 0, false
 	}
 	for _, c := range d {
@@ -61,8 +63,8 @@ func pInt(s string) (int, bool) {
 			return 0, false
 		}
 	}
-	n, err := strconv.Atoi(s)
-	return n, err == nil
+	n, err := strconv.ParseInt(s, 10, 64)
+	return int(n), err == nil
 }
 
 func pNat(s string) (int, bool) {
@@ -204,9 +206,14 @@ type world struct {
 	w       *tree.BTree
 	hits    []corr.Hit
 	seen    map[string]bool
+	hmu     sync.Mutex
+	bigUsed bool // a limit in (2^24, 2^42] was already used in this script
+	par     bool // inside a parbegin…parend block: every handle is driven by its own goroutine
 }
 
 func (w *world) hit(key, what string) {
+	w.hmu.Lock()
+	defer w.hmu.Unlock()
 	key = "C03:" + key
 	if w.seen[key] {
 		return
@@ -218,7 +225,7 @@ func (w *world) hit(key, what string) {
 func allItems(t *btree.BTree) []kv {
 	var out []kv
 	t.Ascend(func(i btree.Item) bool {
-		if x, ok := i.(kv); ok {
+		if x, ok := plain(i); ok {
 			out = append(out, x)
 		}
 		return true
@@ -248,6 +255,19 @@ func errKind(err error) string {
 // afterWrite restates the property after a mutation of handle h (direct) — contents of EVERY handle equal their
 // reference (clone isolation both ways), structure and length of the written handle are right.
 func (w *world) afterWrite(h int, op string) {
+	if w.par {
+		// the other handles are being written by their own goroutines: judge this handle only (all are compared at parend)
+		t := w.trees[h]
+		if err := t.VerifCheck(); err != nil {
+			w.hit("concurrency:clone-writers:VerifCheck:"+errKind(err)[4:], fmt.Sprintf("handle %d after %s while other handles were written concurrently: %v", h, op, err))
+			return
+		}
+		if got := allItems(t); !eqKVs(got, w.refs[h].items) {
+			w.hit("concurrency:clone-writers:contents-differ", fmt.Sprintf("handle %d after %s while other handles were written concurrently: tree=%s expected=%s", h, op, showKVs(got), showKVs(w.refs[h].items)))
+			w.refs[h].items = append([]kv(nil), got...)
+		}
+		return
+	}
 	for j, t := range w.trees {
 		if err := t.VerifCheck(); err != nil && fatalKind(err) {
 			w.dead = true
@@ -319,6 +339,20 @@ var directScans = map[string][2]bool{ // name -> needs p, needs p2
 	"desc": {false, false}, "descle": {true, false}, "desclt": {true, false}, "descgt": {true, false}, "descrange": {true, true},
 }
 
+func callWalk(b *tree.BTree, name string, p int, filter tree.FilterFn, n int) []tree.Node {
+	switch name {
+	case "gte":
+		return b.AscendGte(kv{k: p}, filter, n)
+	case "gt":
+		return b.AscendGt(kv{k: p}, filter, n)
+	case "lte":
+		return b.DescendLte(kv{k: p}, filter, n)
+	case "lt":
+		return b.DescendLt(kv{k: p}, filter, n)
+	}
+	return nil
+}
+
 func runScan(t *btree.BTree, name string, p, p2 int, cont func(kv) bool) []kv {
 	out := []kv{}
 	it := func(i btree.Item) bool {
@@ -366,11 +400,13 @@ func (w *world) line(line string) string {
 			return "bad-op"
 		}
 		w.wrapper, w.w = false, nil
+		w.bigUsed = false
 		w.trees = []*btree.BTree{btree.New(d)}
 		w.refs = []*ref{{}}
 		return "ok"
 	case f[0] == "neww" && len(f) == 1:
 		w.wrapper, w.trees = true, nil
+		w.bigUsed = false
 		w.w = tree.NewBTree()
 		w.refs = []*ref{{}}
 		return "ok"
@@ -490,6 +526,8 @@ func (w *world) line(line string) string {
 		return fmt.Sprintf("owned=%d total=%d", o, tot)
 	case f[0] == "cons" && len(f) == 2:
 		return "ok"
+	case f[0] == "free" && len(f) == 2:
+		return "free=" + strconv.Itoa(t.VerifFreeListLen())
 	case f[0] == "clone" && len(f) == 2:
 		if len(w.trees) >= 8 {
 			return "bad-op"
@@ -616,21 +654,47 @@ func (w *world) wrapperLine(f []string) string {
 		if !ok4 {
 			return "bad-op"
 		}
-		filter := func(x tree.Node) bool { y, _ := x.(kv); return flt(y) }
+		filter := func(x tree.Node) bool { y, _ := plain(x); return flt(y) }
 		var res []tree.Node
-		switch f[1] {
-		case "gte":
-			res = b.AscendGte(kv{k: p}, filter, n)
-		case "gt":
-			res = b.AscendGt(kv{k: p}, filter, n)
-		case "lte":
-			res = b.DescendLte(kv{k: p}, filter, n)
-		case "lt":
-			res = b.DescendLt(kv{k: p}, filter, n)
+		if n > 1<<24 && n <= 1<<42 {
+			if w.bigUsed {
+				return "bad-op" // one such request per script (protocol rule, same in the oracle)
+			}
+			w.bigUsed = true
+		}
+		if n > 1<<24 {
+			// a request the implementation may answer by exhausting memory: leave a note for the parent process, so that
+			// a dead worker is attributed to this call
+			fmt.Fprintf(os.Stderr, "C03-BIGLIMIT %s\n", strings.Join(f, " "))
+			faulted := true
+			// no collection while a slice of up to 2^42 never-touched cells may be live: marking would walk all of it
+			gcOld := debug.SetGCPercent(-1)
+			func() {
+				defer func() {
+					if e := recover(); e != nil {
+						w.hit("tree:iterWalk:limit-panics-or-exhausts-memory", fmt.Sprintf("%s on %s: panic: %v — the first n matching items exist and are few", strings.Join(f, " "), showKVs(r.items), e))
+					}
+				}()
+				res = callWalk(b, f[1], p, filter, n)
+				faulted = false
+			}()
+			fmt.Fprintf(os.Stderr, "C03-BIGLIMIT-DONE\n")
+			if cap(res) > 1<<24 {
+				res = append([]tree.Node(nil), res...) // drop the huge backing array, hand it back to the OS …
+				debug.FreeOSMemory()
+				recycleWorker = true // … and let this process end after the script: a recycled span would be zeroed page by page
+			}
+			debug.SetGCPercent(gcOld)
+			if faulted {
+				debug.SetGCPercent(gcOld)
+				return "fault"
+			}
+		} else {
+			res = callWalk(b, f[1], p, filter, n)
 		}
 		got := []kv{}
 		for _, x := range res {
-			y, _ := x.(kv)
+			y, _ := plain(x)
 			got = append(got, y)
 		}
 		if n >= 0 {
@@ -722,9 +786,9 @@ func (w *world) concurrent(lo, hi int) string {
 				asc := ri%2 == 0
 				var res []tree.Node
 				if asc {
-					res = b.AscendGt(kv{k: p}, func(tree.Node) bool { return true }, 1000000)
+					res = b.AscendGt(kv{k: p}, func(tree.Node) bool { return true }, 2000)
 				} else {
-					res = b.DescendLt(kv{k: p}, func(tree.Node) bool { return true }, 1000000)
+					res = b.DescendLt(kv{k: p}, func(tree.Node) bool { return true }, 2000)
 				}
 				prev, first := 0, true
 				seen := map[int]bool{}
@@ -751,10 +815,9 @@ func (w *world) concurrent(lo, hi int) string {
 	go func() { wg.Wait(); close(done) }()
 	select {
 	case <-done:
-	case <-time.After(20 * time.Second):
+	case <-time.After(60 * time.Second):
 		close(stop)
-		w.hit("tree:concurrent:writers-stuck", "writers did not finish within 20 s")
-		return "timeout"
+		panic(harnessFatal{"wconc: writers did not finish within 60 s (wall clock): no verdict"})
 	}
 	close(stop)
 	rg.Wait()
@@ -762,13 +825,80 @@ func (w *world) concurrent(lo, hi int) string {
 		r.put(kv{k, 0})
 	}
 	if bad != "" {
-		w.hit("tree:concurrent:inconsistent-scan", bad)
+		w.hit("concurrency:wrapper:inconsistent-scan-or-panic", bad)
 	}
 	w.afterWrapperWrite("concurrent-Insert", r)
 	return "ok"
 }
 
-// runCase executes a script; never panics, never hangs (a stuck script yields `timeout` lines).
+var parOps = map[string]bool{"ins": true, "del": true, "delmin": true, "delmax": true, "get": true, "has": true, "min": true, "max": true, "len": true, "scan": true}
+
+// runPar executes the lines of a parbegin…parend block: one goroutine per handle, each running its handle's lines
+// in script order, all at the same time. Handles are isolated from each other (that is the property), so each
+// line's result is independent of the interleaving; afterwards every handle is compared with its reference.
+func (w *world) runPar(lines []string) []string {
+	outs := make([]string, len(lines))
+	groups := map[int][]int{}
+	for i, l := range lines {
+		f := strings.Fields(l)
+		if len(f) < 2 || !parOps[f[0]] {
+			outs[i] = "bad-op"
+			continue
+		}
+		h, ok := w.handle(f[1])
+		if !ok {
+			outs[i] = "bad-op"
+			continue
+		}
+		groups[h] = append(groups[h], i)
+	}
+	fmt.Fprintf(os.Stderr, "C03-PAR %d handles\n", len(groups))
+	w.par = true
+	var wg sync.WaitGroup
+	for _, idxs := range groups {
+		wg.Add(1)
+		go func(idxs []int) {
+			defer wg.Done()
+			for _, i := range idxs {
+				func() {
+					defer func() {
+						if e := recover(); e != nil {
+							outs[i] = "panic"
+							w.hit("concurrency:clone-writers:panic", fmt.Sprintf("`%s` panicked while other handles were written concurrently: %v", lines[i], e))
+						}
+					}()
+					outs[i] = w.line(lines[i])
+				}()
+			}
+		}(idxs)
+	}
+	done := make(chan struct{})
+	go func() { wg.Wait(); close(done) }()
+	select {
+	case <-done:
+	case <-time.After(90 * time.Second):
+		panic(harnessFatal{"parallel block did not finish within 90 s (wall clock): no verdict"})
+	}
+	w.par = false
+	fmt.Fprintf(os.Stderr, "C03-PAR-DONE\n")
+	for j, t := range w.trees {
+		if err := t.VerifCheck(); err != nil {
+			w.hit("concurrency:clone-writers:VerifCheck:"+errKind(err)[4:], fmt.Sprintf("handle %d after the parallel block: %v", j, err))
+			if fatalKind(err) {
+				w.dead = true
+				return outs
+			}
+		}
+		if got := allItems(t); !eqKVs(got, w.refs[j].items) {
+			w.hit("concurrency:clone-writers:contents-differ", fmt.Sprintf("handle %d after the parallel block: tree=%s expected=%s", j, showKVs(got), showKVs(w.refs[j].items)))
+			w.refs[j].items = append([]kv(nil), got...)
+		}
+	}
+	return outs
+}
+
+// runCase executes a script; never panics. A script that does not finish within the wall-clock limit is a harness
+// error (exit 2), never a verdict.
 func runCase(c corr.Case) corr.Result {
 	type res struct {
 		outs []string
@@ -778,29 +908,64 @@ func runCase(c corr.Case) corr.Result {
 	go func() {
 		w := &world{seen: map[string]bool{}}
 		outs := make([]string, 0, len(c.Lines))
-		for _, l := range c.Lines {
-			func() {
-				defer func() {
-					if e := recover(); e != nil {
-						if hf, ok := e.(harnessFatal); ok {
-							fatalExit(hf.msg) // quiescence could not be established: a harness error, never a verdict
-						}
-						outs = append(outs, "panic")
+		one := func(l string) {
+			defer func() {
+				if e := recover(); e != nil {
+					if hf, ok := e.(harnessFatal); ok {
+						fatalExit(hf.msg) // quiescence / termination could not be established: a harness error, never a verdict
 					}
-				}()
-				outs = append(outs, w.line(l))
+					outs = append(outs, "panic")
+				}
 			}()
+			outs = append(outs, w.line(l))
+		}
+		for i := 0; i < len(c.Lines); i++ {
+			l := strings.TrimSpace(c.Lines[i])
+			direct := !w.wrapper && w.trees != nil && !w.dead
+			if l == "parbegin" && direct {
+				end := i + 1
+				for end < len(c.Lines) && strings.TrimSpace(c.Lines[end]) != "parend" {
+					end++
+				}
+				if end < len(c.Lines) {
+					outs = append(outs, "ok")
+					func() {
+						defer func() {
+							if e := recover(); e != nil {
+								if hf, ok := e.(harnessFatal); ok {
+									fatalExit(hf.msg)
+								}
+								panic(e)
+							}
+						}()
+						outs = append(outs, w.runPar(c.Lines[i+1:end])...)
+					}()
+					if w.dead {
+						outs = append(outs, "aborted")
+					} else {
+						outs = append(outs, "ok")
+					}
+					i = end
+					continue
+				}
+				// no matching parend: the block stays open for the rest of the script
+				outs = append(outs, "ok")
+				outs = append(outs, w.runPar(c.Lines[i+1:])...)
+				break
+			}
+			if (l == "parbegin" || l == "parend") && !w.dead {
+				outs = append(outs, "bad-op")
+				continue
+			}
+			one(c.Lines[i])
 		}
 		ch <- res{outs, w.hits}
 	}()
 	select {
 	case r := <-ch:
 		return corr.Result{Outs: r.outs, Hits: r.hits}
-	case <-time.After(60 * time.Second):
-		outs := make([]string, len(c.Lines))
-		for i := range outs {
-			outs[i] = "timeout"
-		}
-		return corr.Result{Outs: outs, Hits: []corr.Hit{{Key: "C03:harness:script-did-not-terminate", What: "script still running after 60 s"}}}
+	case <-time.After(180 * time.Second):
+		fatalExit("script still running after 180 s (wall clock): no verdict")
+		return corr.Result{}
 	}
 }
